@@ -11,6 +11,8 @@
 // This is workload generation only: every event produced here is judged by the caller's monitors like any other.
 #ifndef VERIF_STEER_H
 #define VERIF_STEER_H
+#include <cmath>
+#include <algorithm>
 #include <deque>
 #include <functional>
 #include <string>
@@ -39,11 +41,24 @@ namespace verif {
     };
     std::vector<double> vals;
     vals.push_back(1e-12);
-    for (double t : thr)
+    for (double t : thr) {
       for (double eps : {-1e-9, 1e-9})
         if (t + eps > 1e-12 && t + eps < 1 - 1e-12) vals.push_back(t + eps);
+      // the threshold itself and its floating-point neighbours: 'p <= X' and 'p < X' part ways only where 100*u == X exactly
+      if (t > 1e-12 && t < 1 - 1e-12) {
+        double lo = t, hi = t;
+        vals.push_back(t);
+        for (int k = 0; k < 2; k++) {
+          lo = std::nextafter(lo, 0.0);
+          hi = std::nextafter(hi, 1.0);
+          vals.push_back(lo);
+          vals.push_back(hi);
+        }
+      }
+    }
     vals.push_back(1 - 1e-12);
     std::sort(vals.begin(), vals.end());
+    vals.erase(std::unique(vals.begin(), vals.end()), vals.end());
     std::unordered_set<uint64_t> seen;
     std::deque<Node> frontier;
     auto apply = [&](const Node & n) {
